@@ -79,6 +79,12 @@ def r1_layering(ctx):
             continue
         reason = R1_ALLOWED_OUTSIDE.get((fk, t.callee))
         if reason is None:
+            # keyed by the enclosing function: a closure rewritten as straight-line code (or the reverse) is the same site
+            fkn = re.sub(r"(::\{closure#\d+\})+$", "", fk)
+            for (f2, c2), r2 in R1_ALLOWED_OUTSIDE.items():
+                if c2 == t.callee and re.sub(r"(::\{closure#\d+\})+$", "", f2) == fkn:
+                    reason = r2
+        if reason is None:
             out.append(violated("C05.R1", key, t.where(),
                                 "raw OS call %s outside the syscall layer (src/syscalls.rs) and not in the exemption table" % t.callee))
             continue
